@@ -849,7 +849,7 @@ class Interp:
         # dropped calls (DESIGN 2.2)
         if isinstance(e.func, ast.Attribute) and isinstance(e.func.value, ast.Name) and e.func.value.id == "LOG":
             if e.func.attr == "isEnabledFor":
-                return False
+                return self._debug_logging()
             # the logging CALL is dropped (DESIGN 2.2) but Python evaluates its arguments before the call, whatever the
             # level: their side effects and exceptions are part of the function (`LOG.debug("%s", message.pretty())`).
             # An argument the engine cannot evaluate is skipped (what it would do stays unknown, as before).
@@ -915,6 +915,15 @@ class Interp:
         except Interp._Stop:
             pass
         return box["r"]
+
+    def _debug_logging(self):
+        """LOG.isEnabledFor(...): whether debug logging is on is the deployment's choice - ONE unknown per path (so paths double
+        once, not per call); code guarded by it (hexdumps, re-bound variables) is part of the function in both settings"""
+        b = getattr(self.ctx, "_debug_logging", None)
+        if b is None:
+            b = self.ctx.fresh_bool("debug_logging_enabled")
+            self.ctx._debug_logging = b
+        return b
 
     def _eval_dropped_args(self, call, frame):
         for a in list(call.args) + [k.value for k in call.keywords]:
